@@ -34,7 +34,7 @@ int ST_EXC;
  * GI0, GI1: arbitrary positions ("for every index" in conclusions); the harness
  * sets them to nondeterministic values once.  ST_LIVE counts live heap blocks
  * obtained from st_new_*.  ST_FAULT != 0 lets st_new_* fail (C19 fault mode).   */
-size_t GI0, GI1, GI2;
+size_t GI0, GI1, GI2, GI3;
 long ST_LIVE;
 int ST_FAULT;
 size_t nondet_size_t(void);
@@ -107,18 +107,18 @@ static void tr_havoc_char(char *d, size_t n)
 T *tr_copy_##sfx(T *d, const T *s, size_t n) { \
     __CPROVER_assert(n == 0 || (__CPROVER_r_ok(s, n * sizeof(T)) && __CPROVER_w_ok(d, n * sizeof(T))), "tr_copy.precondition: source readable and destination writable for n elements"); \
     if (n != 0) { \
-        T v0 = (GI0 < n) ? s[GI0] : (T)0, v1 = (GI1 < n) ? s[GI1] : (T)0, v2 = (GI2 < n) ? s[GI2] : (T)0; \
+        T v0 = (GI0 < n) ? s[GI0] : (T)0, v1 = (GI1 < n) ? s[GI1] : (T)0, v2 = (GI2 < n) ? s[GI2] : (T)0, v3 = (GI3 < n) ? s[GI3] : (T)0; \
         tr_havoc_##sfx(d, n); \
-        __CPROVER_assume(GI0 < n ==> d[GI0] == v0); __CPROVER_assume(GI1 < n ==> d[GI1] == v1); __CPROVER_assume(GI2 < n ==> d[GI2] == v2); \
+        __CPROVER_assume(GI0 < n ==> d[GI0] == v0); __CPROVER_assume(GI1 < n ==> d[GI1] == v1); __CPROVER_assume(GI2 < n ==> d[GI2] == v2); __CPROVER_assume(GI3 < n ==> d[GI3] == v3); \
     } \
     return d; \
 } \
 T *tr_move_##sfx(T *d, const T *s, size_t n) { \
     __CPROVER_assert(n == 0 || (__CPROVER_r_ok(s, n * sizeof(T)) && __CPROVER_w_ok(d, n * sizeof(T))), "tr_move.precondition: source readable and destination writable for n elements"); \
     if (n != 0) { \
-        T v0 = (GI0 < n) ? s[GI0] : (T)0, v1 = (GI1 < n) ? s[GI1] : (T)0, v2 = (GI2 < n) ? s[GI2] : (T)0; \
+        T v0 = (GI0 < n) ? s[GI0] : (T)0, v1 = (GI1 < n) ? s[GI1] : (T)0, v2 = (GI2 < n) ? s[GI2] : (T)0, v3 = (GI3 < n) ? s[GI3] : (T)0; \
         tr_havoc_##sfx(d, n); \
-        __CPROVER_assume(GI0 < n ==> d[GI0] == v0); __CPROVER_assume(GI1 < n ==> d[GI1] == v1); __CPROVER_assume(GI2 < n ==> d[GI2] == v2); \
+        __CPROVER_assume(GI0 < n ==> d[GI0] == v0); __CPROVER_assume(GI1 < n ==> d[GI1] == v1); __CPROVER_assume(GI2 < n ==> d[GI2] == v2); __CPROVER_assume(GI3 < n ==> d[GI3] == v3); \
     } \
     return d; \
 } \
@@ -126,7 +126,7 @@ T *tr_assign_##sfx(T *d, size_t n, T c) { \
     __CPROVER_assert(n == 0 || __CPROVER_w_ok(d, n * sizeof(T)), "tr_assign.precondition: destination writable for n elements"); \
     if (n != 0) { \
         tr_havoc_##sfx(d, n); \
-        __CPROVER_assume(GI0 < n ==> d[GI0] == c); __CPROVER_assume(GI1 < n ==> d[GI1] == c); __CPROVER_assume(GI2 < n ==> d[GI2] == c); \
+        __CPROVER_assume(GI0 < n ==> d[GI0] == c); __CPROVER_assume(GI1 < n ==> d[GI1] == c); __CPROVER_assume(GI2 < n ==> d[GI2] == c); __CPROVER_assume(GI3 < n ==> d[GI3] == c); \
         __CPROVER_assume(d[0] == c); __CPROVER_assume(d[n - 1] == c); \
     } \
     return d; \
@@ -211,3 +211,31 @@ TR_LEN(uint16_t, char16_t)
 TR_LEN(uint32_t, char32_t)
 TR_LEN(int32_t, wchar_t)
 TR_LEN(unsigned char, unsigned_char)
+
+/* ---- C library: strtol family, strtod/strtof, abs --------------------------------------------------------------
+ * Assumed contract (C11 7.22.1): the value is whatever the library computes (uninterpreted: a nondeterministic value
+ * recorded in LC so that callers' postconditions can say "returns exactly what the library returned"); *endptr
+ * points into [s, s + strlen(s)].  LC_STRLEN is set by the harness to the C-string length of the subject.           */
+enum { LC_strtol = 1, LC_strtoll, LC_strtoul, LC_strtoull, LC_strtod, LC_strtof };
+struct { int calls; int which; const char *s; int base; _Bool has_end; size_t endoff; long long sret; unsigned long long uret; double dret; float fret; } LC;
+size_t LC_STRLEN;
+long long nondet_llong(void); unsigned long long nondet_ullong(void); double nondet_double(void); float nondet_float(void);
+static void lc_common(int which, const char *s, char **endp, int base)
+{
+    __CPROVER_assert(__CPROVER_r_ok(s, LC_STRLEN + 1), "strto*.precondition: the subject is a readable NUL-terminated string");
+    __CPROVER_assert(which >= LC_strtod || base == 0 || (base >= 2 && base <= 36), "strto*.precondition: base is 0 or 2..36");
+    LC.calls++; LC.which = which; LC.s = s; LC.base = base; LC.has_end = (endp != (char **)0);
+    size_t k = nondet_size_t(); __CPROVER_assume(k <= LC_STRLEN);
+    LC.endoff = k;
+    if (endp != (char **)0) *endp = (char *)s + k;
+}
+long lc_strtol(const char *s, char **endp, int base) { lc_common(LC_strtol, s, endp, base); long v = (long)nondet_llong(); LC.sret = v; return v; }
+long long lc_strtoll(const char *s, char **endp, int base) { lc_common(LC_strtoll, s, endp, base); long long v = nondet_llong(); LC.sret = v; return v; }
+unsigned long lc_strtoul(const char *s, char **endp, int base) { lc_common(LC_strtoul, s, endp, base); unsigned long v = (unsigned long)nondet_ullong(); LC.uret = v; return v; }
+unsigned long long lc_strtoull(const char *s, char **endp, int base) { lc_common(LC_strtoull, s, endp, base); unsigned long long v = nondet_ullong(); LC.uret = v; return v; }
+double lc_strtod(const char *s, char **endp) { lc_common(LC_strtod, s, endp, 0); double v = nondet_double(); LC.dret = v; return v; }
+float lc_strtof(const char *s, char **endp) { lc_common(LC_strtof, s, endp, 0); float v = nondet_float(); LC.fret = v; return v; }
+/* abs/labs/llabs: "if the result cannot be represented, the behavior is undefined" (C11 7.22.6.1) */
+static inline int std_abs_int(int x) { __CPROVER_assert(x != (-2147483647 - 1), "std::abs.precondition: the absolute value is representable (not the most negative int)"); return x < 0 ? -x : x; }
+static inline long std_abs_long(long x) { __CPROVER_assert(x != (-9223372036854775807L - 1), "std::abs.precondition: the absolute value is representable (not the most negative long)"); return x < 0 ? -x : x; }
+static inline long long std_abs_long_long(long long x) { __CPROVER_assert(x != (-9223372036854775807LL - 1), "std::abs.precondition: the absolute value is representable (not the most negative long long)"); return x < 0 ? -x : x; }
